@@ -438,7 +438,11 @@ def feed_biofuel(db, rep):
 def order(index, db, rep):
     """within add_variables_and_constraints_to_model: variables are created before they are read"""
     rule = "C01.ORDER"
-    fn = index.func(OPT, "Optimizer.add_variables_and_constraints_to_model")
+    # the builder as one statement list: helper methods it merely delegates to are read as part of it; the LP-building steps are kept as calls
+    BUILD_STEPS = ("add_variable_from_prefixes", "add_resource_specific_conditions_to_model", "add_feed_biofuel_to_model",
+                   "add_total_human_consumption_to_model", "add_percentage_intake_constraints", "add_maximize_min_month_objective_to_model",
+                   "add_maximize_sum_total_feed_used_by_animals", "add_conditions_to_model", "load_variable_names_and_prefixes")
+    fn = index.flat_func(OPT, "Optimizer.add_variables_and_constraints_to_model", keep=BUILD_STEPS)
     calls = []
     for n in ast.walk(fn):
         if isinstance(n, ast.Call):
